@@ -378,7 +378,7 @@ def r_zero_tc(prog, R):
     tc = any(p and is_flag_test(c, lambda x: is_call_to(x, "ares_dns_record_get_flags"), "ARES_FLAG_TC") for c, p in facts)
     nt = any((not p) and is_flag_test(c, lambda x: is_field(x, "flags", "ares_conn"), "ARES_CONN_FLAG_TCP") for c, p in facts)
     ni = any((not p) and is_flag_test(c, lambda x: is_field(x, "flags", "ares_channeldata"), "ARES_FLAG_IGNTC") for c, p in facts)
-    rq = any(is_call_el(e2, "ares_append_requeue") for e2 in b.els[i:])
+    rq = can_reach_exit_avoiding(f, b, i, lambda e2: is_call_el(e2, "ares_append_requeue")) is None     # every path from the switch to TCP queues the re-send
     # exact guard: nothing else between the TC test and the arm
     tcblk = None
     for bid in f.rpo():
@@ -393,8 +393,37 @@ def r_zero_tc(prog, R):
             if (not p) and (is_flag_test(cc, lambda x: is_field(x, "flags", "ares_conn"), "ARES_CONN_FLAG_TCP") or is_flag_test(cc, lambda x: is_field(x, "flags", "ares_channeldata"), "ARES_FLAG_IGNTC")):
                 continue
             extra.append(render(cc))
-    if extra:
-        r.viol("tc-arm", f.name, f.loc(el), "TC retry is additionally conditional on %s: some truncated UDP answers are accepted as they are" % extra)
+    # a further condition on the way to the arm is harmless exactly if failing it does not let the truncated answer through: the other edge of
+    # its branch must not reach delivery (a duplicate TC datagram for a query already on TCP is dropped, not delivered)
+    deliver = f.calls_to("ares_qcache_insert") + [x for x in f.calls_to("end_query") if name_of_const(call_arg(x[2], 3)) == "ARES_SUCCESS"]
+    leaks = []
+    if tcblk is not None and extra:
+        from_tc = reach_avoiding(f, tcblk, (), None, 0)
+        for cc, p in guard_delta(mf, (tcblk, 0), (b.id, i)):
+            if render(cc) not in extra:
+                continue
+            found = False
+            for xb in f.blocks.values():
+                if xb.id != tcblk and xb.id not in from_tc:
+                    continue
+                br = f.branch(xb)
+                if not br:
+                    continue
+                ats = atoms(br[0], True)
+                if len(ats) != 1 or render(strip(ats[0][0])) != render(strip(cc)):
+                    continue
+                found = True
+                pol_to_arm = p if ats[0][1] else (not p)
+                other = br[2] if pol_to_arm else br[1]
+                if other is None:
+                    continue
+                pr = reach_avoiding(f, other, (), None, 0)
+                if any(b2.id == other or b2.id in pr for b2, i2, c2 in deliver):
+                    leaks.append(render(cc))
+            if not found:
+                leaks.append(render(cc))
+    if extra and leaks:
+        r.viol("tc-arm", f.name, f.loc(el), "TC retry is additionally conditional on %s: some truncated UDP answers are accepted as they are" % leaks)
     elif tc and nt and ni and rq:
         r.ok("tc-arm", f.loc(el))
     else:
